@@ -659,40 +659,6 @@ theorem listMul_singleton {α : Type} (x : α) (n : Int) : listMul #[x] n = Arra
 
 /-! ### method: make_periodic -/
 
-theorem _root_.PyBasis_make_periodic_eq (b : Basis K) (tol : K) (c : ℕ) (h1 : 2 ≤ b.order)
-    (hc : c + 2 ≤ b.order) (hsz : c + 2 + 2 * (b.order - 1) ≤ b.knots.size) :
-    PyBasis.make_periodic (ofBasis b) tol c = (b.makePeriodic tol c).map ofBasis := by
-  unfold PyBasis.make_periodic Basis.makePeriodic
-  have h2 : b.order ≤ b.knots.size := by omega
-  simp only [PyBasis_start_eq b tol (by omega) h2, PyBasis_end_eq b tol (by omega) h2, ok_bind, pure_eq_ok,
-    ofBasis_knots, ofBasis_order]
-  set nk := b.knots.extract (b.order - 1) (b.knots.size - (b.order - 1)) with hnk
-  have hm : nk.size = b.knots.size - 2 * (b.order - 1) := by simp [hnk]; omega
-  have e1 : slice b.knots (some ((b.order : Int) - 1)) (some (-((b.order : Int) - 1))) = nk := by
-    simp only [slice]
-    rw [sliceLo_some _ _ (by omega)]
-    have : (-((b.order : Int) - 1)) < 0 := by omega
-    simp only [sliceHi, this, if_true]
-    rw [hnk]; congr <;> omega
-  rw [e1]
-  have e2 : slice nk (some (-((b.order : Int) - 1 - (↑b.order - 1 - ↑c - 1)) - 1)) (some (-1))
-      = nk.extract (nk.size - (b.order - 1 - (b.order - 1 - c - 1)) - 1) (nk.size - 1) := by
-    have : (-((b.order : Int) - 1 - (↑b.order - 1 - ↑c - 1)) - 1) < 0 := by omega
-    have hneg : ((-1 : Int) < 0) := by omega
-    simp only [slice, sliceLo, sliceHi, this, hneg, if_true]
-    congr <;> omega
-  have e3 : slice nk (some 1) (some ((b.order : Int) - 1 - (↑b.order - 1 - ↑c - 1) + 1))
-      = nk.extract 1 (b.order - 1 - (b.order - 1 - c - 1) + 1) := by
-    simp only [slice]
-    rw [sliceLo_some _ _ (by omega), sliceHi_some _ _ (by omega)]
-    congr <;> omega
-  rw [e2, e3, listMul_singleton, listMul_singleton]
-  have e4 : ((b.order : Int) - 1 - ↑c - 1).toNat = b.order - 1 - c - 1 := by omega
-  rw [e4, PyBasis_init_eq b.order _ (c : Int) tol (Or.inr (by
-    simp only [listAdd, arrSubS, arrAddS, Array.size_append, Array.size_map, Array.size_extract, Array.size_replicate]
-    omega))]
-  rfl
-
 /-! ## helpers: matrices -/
 
 /-- Shape invariant of the matrix `C` (`rows × cols`). -/
@@ -806,7 +772,7 @@ theorem extract_list {α : Type} (l : List α) (lo hi : ℕ) :
 
 /-! ### method: raise_order -/
 
-theorem _root_.PyBasis_raise_order_eq [FloorRing K] (b : Basis K) (tol : K) (amount : Int) (h1 : 1 ≤ b.order)
+theorem raise_order_eq_aux [FloorRing K] (b : Basis K) (tol : K) (amount : Int) (h1 : 1 ≤ b.order)
     (h2 : b.order ≤ b.knots.size)
     (hbl : 0 ≤ b.periodic → bisectLeft (fun i => (b.knotSpans tol true).getD i 0) b.stop (b.knotSpans tol true).size
         < (b.knotSpans tol true).size)
@@ -1221,8 +1187,172 @@ theorem forRange_cases {σ : Type} (lo hi : Int) (s : σ) (f : Int → σ → Py
 
 /-! ### method: insert_knot -/
 
+/-! ## helpers for matches -/
+
+theorem npAllclose_self (xs : Array ℚ) (tol : ℚ) (htol : 0 ≤ tol) : npAllclose xs xs tol = .ok true := by
+  unfold npAllclose
+  simp only [if_true]
+  congr 1
+  rw [List.all_eq_true]
+  intro i _
+  simp only [sub_self, abs_zero, decide_eq_true_eq]
+  have : (0 : ℚ) ≤ allcloseRtol := by unfold allcloseRtol; norm_num
+  positivity
+
+theorem headD_toList (xs : Array ℚ) : xs.toList.headD 0 = xs.getD 0 0 := by
+  cases xs with | mk l => cases l <;> simp [Array.getD]
+
+theorem getLastD_toList (xs : Array ℚ) : xs.toList.getLastD 0 = xs.getD (xs.size - 1) 0 := by
+  cases xs with
+  | mk l =>
+    rcases List.eq_nil_or_concat l with h | ⟨l', a, h⟩
+    · subst h; simp [Array.getD]
+    · subst h; simp [Array.getD]
+
+/-! ### method: matches -/
+
+/-- `matches`: the hand model (`MP.basisMatches`, exact comparison of the normalised knot vectors over ℚ)
+    is NOT the same function as the code (`np.allclose` with `atol = knot_tolerance`, `rtol = 1e-5`).
+    What holds: both answer `False` when order or periodicity differ, and an exact match is a match of the
+    code.  Missing for equality: the code also accepts knot vectors that differ within the tolerances. -/
+theorem _root_.PyBasis_matches_eq_partial (a b : Basis ℚ) (rev : Bool) (tol : ℚ) (htol : 0 ≤ tol)
+    (ha : 1 ≤ a.knots.size) (hb : 1 ≤ b.knots.size) :
+    ((a.order ≠ b.order ∨ a.periodic ≠ b.periodic) →
+        PyBasis.matches (ofBasis a) tol (ofBasis b) rev = .ok false ∧ MP.basisMatches a b rev = false) ∧
+    (MP.basisMatches a b rev = true → PyBasis.matches (ofBasis a) tol (ofBasis b) rev = .ok true) := by
+  constructor
+  · intro h
+    have h' : ((a.order : Int) ≠ b.order ∨ a.periodic ≠ b.periodic) := by
+      rcases h with h | h
+      · left; exact_mod_cast h
+      · right; exact h
+    constructor
+    · unfold PyBasis.matches
+      simp only [ofBasis_order, ofBasis_periodic]
+      simp only [h', if_true]; rfl
+    · unfold MP.basisMatches
+      rw [if_pos h]
+  · intro hm
+    unfold MP.basisMatches at hm
+    by_cases h : a.order ≠ b.order ∨ a.periodic ≠ b.periodic
+    · rw [if_pos h] at hm; cases hm
+    · rw [if_neg h] at hm
+      have h' : ¬ ((a.order : Int) ≠ b.order ∨ a.periodic ≠ b.periodic) := by
+        intro hc; apply h
+        rcases hc with hc | hc
+        · left; exact_mod_cast hc
+        · right; exact hc
+      simp only [headD_toList, getLastD_toList, beq_iff_eq] at hm
+      unfold PyBasis.matches
+      simp only [ofBasis_order, ofBasis_periodic, ofBasis_knots]
+      simp only [h', if_false]
+      rw [getItem_neg _ (by omega) (by omega), getItem_nonneg _ (by omega) (by omega),
+        getItem_neg _ (by omega) (by omega), getItem_nonneg _ (by omega) (by omega)]
+      have e1 : ((-1 : Int) + a.knots.size).toNat = a.knots.size - 1 := by omega
+      have e2 : ((-1 : Int) + b.knots.size).toNat = b.knots.size - 1 := by omega
+      simp only [ok_bind, e1, e2, Int.toNat_zero, pure_eq_ok]
+      cases rev
+      · simp only [Bool.false_eq_true, if_false] at hm ⊢
+        have : arrDivS (arrSubS a.knots (a.knots.getD 0 0)) (a.knots.getD (a.knots.size - 1) 0 - a.knots.getD 0 0)
+            = arrDivS (arrSubS b.knots (b.knots.getD 0 0)) (b.knots.getD (b.knots.size - 1) 0 - b.knots.getD 0 0) := by
+          apply Array.ext'
+          simpa [arrDivS, arrSubS, List.map_map, Function.comp_def] using hm
+        rw [this, npAllclose_self _ _ htol]
+        rfl
+      · simp only [if_true] at hm ⊢
+        have : arrDivS (arrRSubS (a.knots.getD (a.knots.size - 1) 0) (reversed a.knots))
+              (a.knots.getD (a.knots.size - 1) 0 - a.knots.getD 0 0)
+            = arrDivS (arrSubS b.knots (b.knots.getD 0 0)) (b.knots.getD (b.knots.size - 1) 0 - b.knots.getD 0 0) := by
+          apply Array.ext'
+          simpa [arrDivS, arrSubS, arrRSubS, reversed, List.map_map, Function.comp_def] using hm
+        rw [this, npAllclose_self _ _ htol]
+        rfl
+
+/-! ## helpers for make_periodic -/
+
+theorem extract_clamp {α : Type} (xs : Array α) (a c : ℕ) :
+    xs.extract (min a xs.size) (min c xs.size) = xs.extract a c := by
+  apply Array.ext'
+  simp only [Array.toList_extract, List.extract_eq_take_drop]
+  by_cases ha : xs.size ≤ a
+  · rw [Nat.min_eq_right ha, List.drop_of_length_le (by simp), List.drop_of_length_le (by simpa using ha)]
+    simp
+  · rw [Nat.min_eq_left (show a ≤ xs.size by omega)]
+    by_cases hc : xs.size ≤ c
+    · rw [Nat.min_eq_right hc, List.take_of_length_le (by simp), List.take_of_length_le (by simp; omega)]
+    · rw [Nat.min_eq_left (by omega)]
+
+/-- The knot vector `make_periodic` hands to the constructor (the hand model's `knots`). -/
+def mpKnots (b : Basis K) (continuity : ℕ) : Array K :=
+  let deg := b.order - 1
+  let nk := if deg = 0 then #[] else b.knots.extract deg (b.knots.size - deg)
+  let diff := b.stop - b.start
+  let nReps := deg - continuity - 1
+  let nCopy := continuity + 1
+  let m := nk.size
+  let head := (nk.extract (m - nCopy - 1) (m - 1)).map (fun x => x - diff)
+  let tail := (nk.extract 1 (nCopy + 1)).map (fun x => x + diff)
+  head ++ Array.replicate nReps b.start ++ nk ++ Array.replicate nReps b.stop ++ tail
+
+theorem makePeriodic_unfold (b : Basis K) (tol : K) (c : ℕ) :
+    b.makePeriodic tol c = Basis.mk? b.order (mpKnots b c) c tol := rfl
+
+/-! ### method: make_periodic -/
+
+theorem _root_.PyBasis_make_periodic_eq (b : Basis K) (tol : K) (c : ℕ) (h1 : 1 ≤ b.order)
+    (h2 : b.order ≤ b.knots.size) (hidx : (b.order : Int) + c + 1 ≤ (mpKnots b c).size) :
+    PyBasis.make_periodic (ofBasis b) tol c = (b.makePeriodic tol c).map ofBasis := by
+  rw [makePeriodic_unfold]
+  unfold PyBasis.make_periodic
+  simp only [PyBasis_start_eq b tol h1 h2, PyBasis_end_eq b tol h1 h2, ok_bind, pure_eq_ok,
+    ofBasis_knots, ofBasis_order]
+  have hk : (listAdd (listAdd (listAdd (listAdd
+      (arrSubS (slice (slice b.knots (some ((b.order : Int) - 1)) (some (-((b.order : Int) - 1))))
+          (some (-((b.order : Int) - 1 - (↑b.order - 1 - ↑c - 1)) - 1)) (some (-1))) (b.stop - b.start))
+      (listMul #[b.start] ((b.order : Int) - 1 - ↑c - 1)))
+      (slice b.knots (some ((b.order : Int) - 1)) (some (-((b.order : Int) - 1)))))
+      (listMul #[b.stop] ((b.order : Int) - 1 - ↑c - 1)))
+      (arrAddS (slice (slice b.knots (some ((b.order : Int) - 1)) (some (-((b.order : Int) - 1)))) (some 1)
+          (some ((b.order : Int) - 1 - (↑b.order - 1 - ↑c - 1) + 1))) (b.stop - b.start))) = mpKnots b c := by
+    unfold mpKnots
+    simp only []
+    have e1 : slice b.knots (some ((b.order : Int) - 1)) (some (-((b.order : Int) - 1)))
+        = (if b.order - 1 = 0 then #[] else b.knots.extract (b.order - 1) (b.knots.size - (b.order - 1))) := by
+      simp only [slice]
+      rw [sliceLo_some _ _ (by omega)]
+      by_cases hd : b.order - 1 = 0
+      · rw [if_pos hd]
+        have : (-((b.order : Int) - 1)) = 0 := by omega
+        rw [this]
+        simp [sliceHi, show ((b.order : Int) - 1).toNat = 0 by omega]
+      · rw [if_neg hd]
+        have : (-((b.order : Int) - 1)) < 0 := by omega
+        simp only [sliceHi, this, if_true]
+        congr <;> omega
+    rw [e1]
+    generalize (if b.order - 1 = 0 then (#[] : Array K) else b.knots.extract (b.order - 1) (b.knots.size - (b.order - 1))) = nk
+    have e2 : slice nk (some (-((b.order : Int) - 1 - (↑b.order - 1 - ↑c - 1)) - 1)) (some (-1))
+        = nk.extract (nk.size - (c + 1) - 1) (nk.size - 1) := by
+      have : (-((b.order : Int) - 1 - (↑b.order - 1 - ↑c - 1)) - 1) < 0 := by omega
+      have hneg : ((-1 : Int) < 0) := by omega
+      simp only [slice, sliceLo, sliceHi, this, hneg, if_true]
+      congr <;> omega
+    have e3 : slice nk (some 1) (some ((b.order : Int) - 1 - (↑b.order - 1 - ↑c - 1) + 1))
+        = nk.extract 1 (c + 1 + 1) := by
+      simp only [slice]
+      rw [sliceLo_some _ _ (by omega), sliceHi_some _ _ (by omega),
+        show ((b.order : Int) - 1 - (↑b.order - 1 - ↑c - 1) + 1).toNat = c + 1 + 1 by omega,
+        show (1 : Int).toNat = 1 from rfl, extract_clamp]
+    rw [e2, e3, listMul_singleton, listMul_singleton]
+    have e4 : ((b.order : Int) - 1 - ↑c - 1).toNat = b.order - 1 - c - 1 := by omega
+    rw [e4]
+    rfl
+  rw [hk, PyBasis_init_eq b.order _ (c : Int) tol (Or.inr hidx)]
+
+/-! ### method: insert_knot -/
+
 theorem _root_.PyBasis_insert_knot_eq [FloorRing K] (b : Basis K) (tol x0 : K) (h1 : 1 ≤ b.order)
-    (hper : -1 ≤ b.periodic) (hn : b.order + (b.periodic + 1).toNat + 1 ≤ b.knots.size)
+    (hper : -1 ≤ b.periodic) (hsz : b.order + 1 ≤ b.knots.size)
     (hcol : 0 ≤ b.periodic → (x0 < b.start ∨ x0 > b.stop) → b.stop - b.start ≠ 0)
     (hmu : ∀ x, wrapX b x0 = .ok x → b.order ≤ b.bisectR x) :
     PyBasis.insert_knot (ofBasis b) tol x0 = (b.insertKnot x0).map (fun r => (ofBasis r.1, r.2)) := by
@@ -1262,10 +1392,46 @@ theorem _root_.PyBasis_insert_knot_eq [FloorRing K] (b : Basis K) (tol x0 : K) (
       have hmu1 := hmu x hw
       have hmu2 := bisectR_le b x
       simp only [ok_bind, ofBasis_knots, ofBasis_order, ofBasis_periodic, bisect_right_eq,
-        PyBasis_num_functions_eq b tol (by omega) hper]
-      have hn1 : 1 ≤ b.numFunctions := by unfold Basis.numFunctions; omega
-      have hnf : b.numFunctions = b.knots.size - b.order - (b.periodic + 1).toNat := rfl
+        PyBasis.num_functions, len, pure_eq_ok]
       generalize b.bisectR x = mu at hmu1 hmu2 ⊢
+      -- `n < 0`: `np.zeros` refuses the shape
+      by_cases hneg : (b.knots.size : Int) - (b.order : Int) - (b.periodic + 1) < 0
+      · rw [if_pos hneg]
+        simp only [npZeros2]
+        rw [if_pos (Or.inr hneg)]
+        rfl
+      rw [if_neg hneg]
+      have hnf : b.numFunctions = b.knots.size - b.order - (b.periodic + 1).toNat := rfl
+      have hnI : (b.knots.size : Int) - (b.order : Int) - (b.periodic + 1) = (b.numFunctions : Int) := by omega
+      rw [hnI]
+      -- `n = 0`: the first index expression evaluated divides by zero
+      by_cases hz : b.numFunctions = 0
+      · rw [if_pos hz, hz]
+        simp only [npZeros2]
+        rw [if_neg (by omega)]
+        simp only [ok_bind]
+        by_cases hmp : b.order < mu
+        · rw [forRange_first_error 0 _ _ _ .zeroDiv (by omega) (by simp [pyModI])]
+          rfl
+        · have hmeq : mu = b.order := by omega
+          subst hmeq
+          rw [forRange_empty _ _ _ _ (by omega)]
+          simp only [ok_bind]
+          rw [forRange_first_error _ _ _ _ .zeroDiv (by omega) (by
+            have g1 : getItem b.knots ((b.order : Int) - (b.order : Int) + (b.order : Int) - 1)
+                = .ok (b.knots.getD (b.order - 1) 0) := by
+              rw [getItem_nonneg _ (by omega) (by omega)]; congr 2; omega
+            have g2 : getItem b.knots ((b.order : Int) - (b.order : Int) + (b.order : Int))
+                = .ok (b.knots.getD b.order 0) := by
+              rw [getItem_nonneg _ (by omega) (by omega)]; congr 2; omega
+            have g3 : getItem b.knots ((b.order : Int) - (b.order : Int)) = .ok (b.knots.getD 0 0) := by
+              rw [getItem_nonneg _ (by omega) (by omega)]; congr 2; omega
+            simp only [g1, g2, g3, ok_bind, pure_eq_ok]
+            split <;> split <;> simp [pyModI])]
+          rfl
+      rw [if_neg hz]
+      have hn1 : 1 ≤ b.numFunctions := by omega
+      have hn : b.order + (b.periodic + 1).toNat + 1 ≤ b.knots.size := by omega
       generalize b.numFunctions = n at hn1 hnf ⊢
       simp only [List.range_eq_range']
       simp only [npZeros2]
@@ -1416,7 +1582,7 @@ theorem _root_.PyBasis_insert_knot_eq [FloorRing K] (b : Basis K) (tol x0 : K) (
               (i + b.order = b.knots.size ∧ (b.kn (i + b.order - 1) ≤ x ∨ ¬ (b.kn i ≤ x ∧ x ≤ b.kn (i + 1))))))
       · rw [if_pos hG, if_pos (hGiff.mp hG)]
         rfl
-      rw [if_neg hG, if_neg (fun h => hG (hGiff.mpr h)), if_neg (by omega)]
+      rw [if_neg hG, if_neg (fun h => hG (hGiff.mpr h))]
       clear hG hGiff
       simp only [ok_bind, show ((mu : Int) - b.order).toNat = mu - b.order by omega,
         show ((mu : Int) - ((mu : Int) - b.order)).toNat = mu - (mu - b.order) by omega]
@@ -1536,7 +1702,7 @@ theorem _root_.PyBasis_insert_knot_eq_sorted [FloorRing K] (b : Basis K) (tol x0
     (hsorted : ∀ i j, i ≤ j → j < b.knots.size → b.kn i ≤ b.kn j)
     (hx : b.start ≤ x0) (hx' : x0 ≤ b.stop) :
     PyBasis.insert_knot (ofBasis b) tol x0 = (b.insertKnot x0).map (fun r => (ofBasis r.1, r.2)) := by
-  refine PyBasis_insert_knot_eq b tol x0 h1 (by omega) (by rw [hper]; simpa using hn)
+  refine PyBasis_insert_knot_eq b tol x0 h1 (by omega) hn
     (fun h => by omega) ?_
   intro x hxw
   have hw : wrapX b x0 = .ok x0 := by
@@ -1551,85 +1717,113 @@ theorem _root_.PyBasis_insert_knot_eq_sorted [FloorRing K] (b : Basis K) (tol x0
   have := hhi (b.order - 1) (by change b.bisectR x0 ≤ _; omega) (by omega)
   exact absurd hx (not_le.mpr this)
 
-/-! ## helpers for matches -/
+/-! ## helpers for __init__ -/
 
-theorem npAllclose_self (xs : Array ℚ) (tol : ℚ) (htol : 0 ≤ tol) : npAllclose xs xs tol = .ok true := by
-  unfold npAllclose
-  simp only [if_true]
-  congr 1
-  rw [List.all_eq_true]
-  intro i _
-  simp only [sub_self, abs_zero, decide_eq_true_eq]
-  have : (0 : ℚ) ≤ allcloseRtol := by unfold allcloseRtol; norm_num
-  positivity
+/-- The inputs on which `BSplineBasis.__init__` raises `IndexError` (the periodic comparison loop runs and
+    reads `knots[-p-k-1]` in front of the list) — the hand model `Basis.mk?` answers with `getD` there. -/
+def ctorOob (p n : ℕ) (periodic : Int) : Prop :=
+  1 ≤ p ∧ 2 * p ≤ n ∧ 0 ≤ periodic ∧ 1 ≤ (p : Int) + periodic - 1 ∧ (n : Int) < (p : Int) + periodic + 1
 
-theorem headD_toList (xs : Array ℚ) : xs.toList.headD 0 = xs.getD 0 0 := by
-  cases xs with | mk l => cases l <;> simp [Array.getD]
+instance (p n : ℕ) (periodic : Int) : Decidable (ctorOob p n periodic) := by unfold ctorOob; infer_instance
 
-theorem getLastD_toList (xs : Array ℚ) : xs.toList.getLastD 0 = xs.getD (xs.size - 1) 0 := by
-  cases xs with
-  | mk l =>
-    rcases List.eq_nil_or_concat l with h | ⟨l', a, h⟩
-    · subst h; simp [Array.getD]
-    · subst h; simp [Array.getD]
+/-! ### method: __init__ -/
 
-/-! ### method: matches -/
+theorem init_too_few (p : ℕ) (knots : Array K) (per : Int) (tol : K) (h1 : 1 ≤ p) (h : knots.size < 2 * p) :
+    PyBasis.init tol p knots per = .error .value := by
+  unfold PyBasis.init
+  have e1 : ¬ ((p : Int) < 1) := by omega
+  have e2 : (len knots < 2 * (p : Int)) := by unfold len; omega
+  simp [e1, e2]
 
-/-- `matches`: the hand model (`MP.basisMatches`, exact comparison of the normalised knot vectors over ℚ)
-    is NOT the same function as the code (`np.allclose` with `atol = knot_tolerance`, `rtol = 1e-5`).
-    What holds: both answer `False` when order or periodicity differ, and an exact match is a match of the
-    code.  Missing for equality: the code also accepts knot vectors that differ within the tolerances. -/
-theorem _root_.PyBasis_matches_eq_partial (a b : Basis ℚ) (rev : Bool) (tol : ℚ) (htol : 0 ≤ tol)
-    (ha : 1 ≤ a.knots.size) (hb : 1 ≤ b.knots.size) :
-    ((a.order ≠ b.order ∨ a.periodic ≠ b.periodic) →
-        PyBasis.matches (ofBasis a) tol (ofBasis b) rev = .ok false ∧ MP.basisMatches a b rev = false) ∧
-    (MP.basisMatches a b rev = true → PyBasis.matches (ofBasis a) tol (ofBasis b) rev = .ok true) := by
-  constructor
-  · intro h
-    have h' : ((a.order : Int) ≠ b.order ∨ a.periodic ≠ b.periodic) := by
-      rcases h with h | h
-      · left; exact_mod_cast h
-      · right; exact h
-    constructor
-    · unfold PyBasis.matches
-      simp only [ofBasis_order, ofBasis_periodic]
-      simp only [h', if_true]; rfl
-    · unfold MP.basisMatches
-      rw [if_pos h]
-  · intro hm
-    unfold MP.basisMatches at hm
-    by_cases h : a.order ≠ b.order ∨ a.periodic ≠ b.periodic
-    · rw [if_pos h] at hm; cases hm
-    · rw [if_neg h] at hm
-      have h' : ¬ ((a.order : Int) ≠ b.order ∨ a.periodic ≠ b.periodic) := by
-        intro hc; apply h
-        rcases hc with hc | hc
-        · left; exact_mod_cast hc
-        · right; exact hc
-      simp only [headD_toList, getLastD_toList, beq_iff_eq] at hm
-      unfold PyBasis.matches
-      simp only [ofBasis_order, ofBasis_periodic, ofBasis_knots]
-      simp only [h', if_false]
-      rw [getItem_neg _ (by omega) (by omega), getItem_nonneg _ (by omega) (by omega),
-        getItem_neg _ (by omega) (by omega), getItem_nonneg _ (by omega) (by omega)]
-      have e1 : ((-1 : Int) + a.knots.size).toNat = a.knots.size - 1 := by omega
-      have e2 : ((-1 : Int) + b.knots.size).toNat = b.knots.size - 1 := by omega
-      simp only [ok_bind, e1, e2, Int.toNat_zero, pure_eq_ok]
-      cases rev
-      · simp only [Bool.false_eq_true, if_false] at hm ⊢
-        have : arrDivS (arrSubS a.knots (a.knots.getD 0 0)) (a.knots.getD (a.knots.size - 1) 0 - a.knots.getD 0 0)
-            = arrDivS (arrSubS b.knots (b.knots.getD 0 0)) (b.knots.getD (b.knots.size - 1) 0 - b.knots.getD 0 0) := by
-          apply Array.ext'
-          simpa [arrDivS, arrSubS, List.map_map, Function.comp_def] using hm
-        rw [this, npAllclose_self _ _ htol]
-        rfl
-      · simp only [if_true] at hm ⊢
-        have : arrDivS (arrRSubS (a.knots.getD (a.knots.size - 1) 0) (reversed a.knots))
-              (a.knots.getD (a.knots.size - 1) 0 - a.knots.getD 0 0)
-            = arrDivS (arrSubS b.knots (b.knots.getD 0 0)) (b.knots.getD (b.knots.size - 1) 0 - b.knots.getD 0 0) := by
-          apply Array.ext'
-          simpa [arrDivS, arrSubS, arrRSubS, reversed, List.map_map, Function.comp_def] using hm
-        rw [this, npAllclose_self _ _ htol]
+theorem mk?_too_few (p : ℕ) (knots : Array K) (per : Int) (tol : K) (h1 : 1 ≤ p) (h : knots.size < 2 * p) :
+    Basis.mk? p knots per tol = .error .value := by
+  rw [mk?_unfold, if_neg (by omega), if_pos h]
+
+
+/-- **The constructor, all inputs**: the translated `__init__` is the hand model except on `ctorOob`, where
+    the code raises `IndexError` (real code: `BSplineBasis(2, [0,1,2,3], periodic=3)`). -/
+theorem _root_.PyBasis_init_eq_full (p : ℕ) (knots : Array K) (periodic : Int) (tol : K) :
+    PyBasis.init tol p knots periodic =
+      if ctorOob p knots.size periodic then .error .index else (Basis.mk? p knots periodic tol).map ofBasis := by
+  by_cases hoob : ctorOob p knots.size periodic
+  · rw [if_pos hoob]
+    obtain ⟨h1, h2, h3, h4, h5⟩ := hoob
+    unfold PyBasis.init
+    have e1 : ¬ ((p : Int) < 1) := by omega
+    have e2 : ¬ (len knots < 2 * (p : Int)) := by unfold len; omega
+    have e3 : max periodic (-1) = periodic := by omega
+    simp only [e1, e2, e3, if_false, pure_eq_ok, ok_bind, show periodic ≥ 0 from h3, if_true]
+    rw [forRange_first_error 0 _ _ _ .index (by omega) (by
+      rw [getItem_nonneg _ (by omega) (by omega), getItem_nonneg _ (by omega) (by omega)]
+      simp only [ok_bind]
+      by_cases hk : (p : Int) + periodic ≤ knots.size
+      · rw [getItem_neg _ (by omega) (by omega)]
+        simp only [ok_bind]
+        have : getItem knots (-(p : Int) - periodic - 1 + 0) = .error .index := by
+          unfold getItem; rw [if_neg (by omega), if_neg (by omega)]
+        rw [this]; rfl
+      · have : getItem knots (-(p : Int) - periodic + 0) = .error .index := by
+          unfold getItem; rw [if_neg (by omega), if_neg (by omega)]
+        rw [this]; rfl)]
+    rfl
+  · rw [if_neg hoob]
+    unfold ctorOob at hoob
+    by_cases h1 : p < 1
+    · have : p = 0 := by omega
+      subst this
+      rw [mk?_unfold, if_pos (by omega)]
+      unfold PyBasis.init
+      simp
+    · by_cases h2 : knots.size < 2 * p
+      · rw [init_too_few p knots periodic tol (by omega) h2, mk?_too_few p knots periodic tol (by omega) h2]; rfl
+      · exact PyBasis_init_eq p knots periodic tol (by omega)
+
+
+/-! ### method: raise_order -/
+
+theorem _root_.PyBasis_raise_order_eq [FloorRing K] (b : Basis K) (tol : K) (amount : Int) (h1 : 1 ≤ b.order)
+    (h2 : b.order ≤ b.knots.size)
+    (hsz : b.periodic < 0 ∨ (b.order : Int) + amount + b.periodic + 1 ≤ (raisedKnots b tol amount.toNat).length) :
+    PyBasis.raise_order (ofBasis b) tol amount = (b.raiseOrderInt tol amount).map ofBasis := by
+  by_cases hbl : 0 ≤ b.periodic → bisectLeft (fun i => (b.knotSpans tol true).getD i 0) b.stop (b.knotSpans tol true).size
+        < (b.knotSpans tol true).size
+  · exact raise_order_eq_aux b tol amount h1 h2 hbl hsz
+  · -- `bisect_left(knot_spans, end) = len(knot_spans)` on a periodic basis: Python's `n1 = -1` keeps at most
+    -- `amount` knots, the model's truncated `n1 = 0` keeps none; the constructor refuses both (`ValueError`)
+    have hp : 0 ≤ b.periodic := by by_contra hc; exact hbl (fun h => absurd h hc)
+    have hge : ¬ bisectLeft (fun i => (b.knotSpans tol true).getD i 0) b.stop (b.knotSpans tol true).size
+        < (b.knotSpans tol true).size := fun h => hbl (fun _ => h)
+    have hle := bisectLeftAux_le (fun i => (b.knotSpans tol true).getD i 0) b.stop 0 (b.knotSpans tol true).size
+      (Nat.zero_le _)
+    have heq : bisectLeft (fun i => (b.knotSpans tol true).getD i 0) b.stop (b.knotSpans tol true).size
+        = (b.knotSpans tol true).size := by unfold bisectLeft at hge ⊢; omega
+    unfold PyBasis.raise_order Basis.raiseOrderInt
+    by_cases ha : amount < 0
+    · simp [ha]
+    · simp only [ha, if_false, pure_eq_ok, ok_bind]
+      rw [raiseOrder_unfold]
+      by_cases ha0 : amount = 0
+      · simp [ha0]
+      · have ha0' : ¬ amount.toNat = 0 := by omega
+        rw [if_neg ha0, if_neg ha0', PyBasis_knot_spans_eq b tol true h1 h2]
+        simp only [ok_bind, PyBasis_start_eq b tol h1 h2, PyBasis_end_eq b tol h1 h2, ofBasis_knots, ofBasis_order,
+          ofBasis_periodic, pure_eq_ok]
+        obtain ⟨a, rfl⟩ : ∃ a : ℕ, amount = a := ⟨amount.toNat, by omega⟩
+        simp only [Int.toNat_natCast] at ha0' ⊢
+        have hpp : b.periodic > -1 := by omega
+        simp only [hpp, if_true, ok_bind]
+        rw [show ((b.order : Int) + a) = ((b.order + a : ℕ) : Int) by push_cast; ring]
+        rw [init_too_few _ _ _ _ (by omega) (by
+          simp only [bisect_left, len, heq, slice, Array.size_extract]
+          have e : (-(((b.knotSpans tol true).size : Int) - ((b.knotSpans tol true).size : ℕ) - 1) * (a : Int)) = (a : Int) := by
+            ring
+          rw [e, sliceHi_some _ _ (by omega)]
+          omega)]
+        rw [mk?_too_few _ _ _ _ (by omega) (by
+          unfold raisedKnots
+          simp only [hpp, if_true, List.size_toArray, Array.toArray_toList, Array.length_toList, heq]
+          simp
+          omega)]
         rfl
 
 end Splipy.PyB
